@@ -48,7 +48,7 @@
        about the caller's assets, not about the script's execution, and it needs no [isel]).
      interp_is_recursive: work-list evaluator = recursive evaluator, every ms and stack, no INoFuel.
    Each clause is additionally checked per run by the oracle (tools/props/c13.py). *)
-From Verif Require Import Spend InterpTxdataModel InterpTxdataProofs InterpTxdataAll InterpTxdataKeys.
+From Verif Require Import Spend InterpTxdataModel InterpTxdataProofs InterpTxdataAll InterpTxdataKeys InterpTxdataWitness.
 From Verif Require Import Exec ExecTrace Ser Ast Types TypeCheck SatSpec TheoremA DenotSpec InterpModel InterpRefine InterpSound InterpWitness InterpComplete InterpDenot InterpMain InterpPolicy InterpGenuine.
 Local Open Scope N_scope.
 
@@ -269,11 +269,11 @@ Proof. exact iff_nonvacuous. Qed.
      from_txdata_interp_sound: the composition for every script-bearing arm, instantiated with the
        evaluator's soundness theorem (interp_sound_partial = InterpMain.interp_sound_env); the composition
        with [interp] only concerns script kinds, so it carries no _partial suffix.
-     from_txdata_interp_pk_sound_partial: the composition with [interp_pk] for the taproot key path.  MISSING
-       arms: p2pk, p2pkh, p2wpkh, sh-wpkh (the specification runs DUP HASH160 <h> EQUALVERIFY CHECKSIG / <k>
-       CHECKSIG there; relating that execution to e_sigok needs the Script semantics of those opcodes).
-     from_txdata_complete_std_partial_{wsh,shwsh,sh,bare,tr}: every script-bearing arm.  MISSING arms: the
-       key-only kinds.
+     from_txdata_interp_pk_sound_partial_{trkey,wpkh}: the composition with [interp_pk] for the taproot key
+       path, p2wpkh and sh-wpkh (the P2PKH script is executed in Coq: InterpTxdataKeys.p2pkh_exec).  MISSING
+       arms: p2pk, p2pkh (bare scripts for the specification; needs parse_script of a symbolic scriptPubKey).
+     from_txdata_complete_std_partial_{wsh,shwsh,sh,bare,tr,trkey,wpkh,shwpkh,pk}: every arm but one.
+       MISSING arm: p2pkh (same reason).
    Taproot leaf version: from_txdata asks rust-bitcoin for the commitment of the control block only and never
    tests that the leaf version is 0xc0; the specification's [co] includes that test.  The equation keeps
    [co sb cb] as a factor ([cbok]); the composition assumes [f_commit fe sb cb = true -> co sb cb = true], i.e.
@@ -303,14 +303,63 @@ Theorem from_txdata_sound_script :
 Proof. exact from_txdata_sound_all. Qed.
 Print Assumptions from_txdata_sound_script.
 
-(* taproot key path composed with the evaluator model for key-only outputs *)
-Theorem from_txdata_interp_pk_sound_partial :
+(* key-only kinds composed with the evaluator model for key-only outputs ([interp_pk]): taproot key path,
+   P2WPKH and P2SH-P2WPKH.  MISSING arms: p2pk, p2pkh (for the specification they are bare scripts: the
+   composition needs parse_script of the symbolic P2PK / P2PKH scriptPubKey). *)
+Theorem from_txdata_interp_pk_sound_partial_trkey :
   forall e fe co spk ssig wit k st code cs,
     from_txdata e fe spk ssig wit = FOk (InPk k PtTr) st code ->
     interp_pk e k st = IAccept cs ->
     verify_spend e co spk ssig wit = true.
 Proof. exact from_txdata_interp_pk_trkey. Qed.
-Print Assumptions from_txdata_interp_pk_sound_partial.
+Print Assumptions from_txdata_interp_pk_sound_partial_trkey.
+
+Theorem from_txdata_interp_pk_sound_partial_wpkh :
+  forall e fe co spk ssig wit k t st code cs,
+    from_txdata e fe spk ssig wit = FOk (InPk k t) st code -> t = PtWpkh \/ t = PtShWpkh ->
+    interp_pk e k st = IAccept cs ->
+    N.eqb (blen k) 33 = true -> e_keyok e k = true -> N.leb (blen ssig) 1650 = true ->
+    verify_spend e co spk ssig wit = true.
+Proof. exact from_txdata_interp_pk_wpkh. Qed.
+Print Assumptions from_txdata_interp_pk_sound_partial_wpkh.
+
+(* completeness, key-only arms.  MISSING arm: p2pkh. *)
+Theorem from_txdata_complete_std_partial_trkey :
+  forall e fe co spk ssig wit k sg,
+    spk_is_p2tr spk = Some k -> wit = [sg] ->
+    verify_spend e co spk ssig wit = true -> f_xonly fe k = true ->
+    from_txdata e fe spk ssig wit = FOk (InPk k PtTr) [elem_of sg] None.
+Proof. exact from_txdata_complete_trkey. Qed.
+Print Assumptions from_txdata_complete_std_partial_trkey.
+
+Theorem from_txdata_complete_std_partial_wpkh :
+  forall e fe co spk ssig wit h,
+    spk_is_p2wpkh spk = Some h ->
+    verify_spend e co spk ssig wit = true ->
+    (forall k, hd_error (rev wit) = Some k -> f_pk fe k = Some true) ->
+    exists k sg, wit = [sg; k] /\
+                 from_txdata e fe spk ssig wit = FOk (InPk k PtWpkh) [elem_of sg] (Some (p2pkh_bytes (e_hash160 e k))).
+Proof. exact from_txdata_complete_wpkh. Qed.
+Print Assumptions from_txdata_complete_std_partial_wpkh.
+
+Theorem from_txdata_complete_std_partial_shwpkh :
+  forall e fe co spk ssig wit h el r kh,
+    spk_is_p2sh spk = Some h ->
+    ssig_stack_of ssig = Some (el :: r) -> spk_is_p2wpkh (conc el) = Some kh ->
+    verify_spend e co spk ssig wit = true ->
+    (forall k, hd_error (rev wit) = Some k -> f_pk fe k = Some true) ->
+    exists k sg, wit = [sg; k] /\
+                 from_txdata e fe spk ssig wit = FOk (InPk k PtShWpkh) [elem_of sg] (Some (p2pkh_bytes (e_hash160 e k))).
+Proof. exact from_txdata_complete_shwpkh. Qed.
+Print Assumptions from_txdata_complete_std_partial_shwpkh.
+
+Theorem from_txdata_complete_std_partial_pk :
+  forall e fe co spk ssig wit k st c,
+    spk_is_p2pk spk = Some k -> ssig_stack_of ssig = Some st ->
+    verify_spend e co spk ssig wit = true -> f_pk fe k = Some c ->
+    from_txdata e fe spk ssig wit = FOk (InPk k PtPk) st (Some spk).
+Proof. exact from_txdata_complete_pk. Qed.
+Print Assumptions from_txdata_complete_std_partial_pk.
 
 (* the same, arm by arm, with the body spelled out *)
 Theorem from_txdata_sound_wsh_eq :
@@ -328,8 +377,8 @@ Theorem from_txdata_sound_tr_eq :
 Proof. exact from_txdata_sound_tr. Qed.
 Print Assumptions from_txdata_sound_tr_eq.
 
-(* completeness, one theorem per script-bearing arm (together: from_txdata_complete_std_partial; MISSING arms:
-   the key-only kinds).  Common shape: the specification accepts + the scriptSig lexes into pushes / OP_1
+(* completeness, one theorem per script-bearing arm (with the key-only arms above: from_txdata_complete_std_partial_*;
+   MISSING arm: p2pkh).  Common shape: the specification accepts + the scriptSig lexes into pushes / OP_1
    ([ssig_stack_of ssig = Some ..]; see from_txdata_opn_expected_push for why this is needed) + the library
    decodes the script element in the arm's context (+ taproot: keys / control block parse, commitment checks
    agree)  =>  the model answers Ok with that script, the rest of the stack and the script as script code. *)
@@ -399,6 +448,20 @@ Theorem from_txdata_interp_sound :
     verify_spend e co spk ssig wit = true.
 Proof. exact from_txdata_interp_sound_all. Qed.
 Print Assumptions from_txdata_interp_sound.
+
+(* non-vacuity of from_txdata_interp_sound: every hypothesis holds (bare and_v(v:pk(A),after(10)), scriptSig =
+   the push of a signature) and the conclusion is true *)
+Example from_txdata_interp_sound_nonvacuous :
+  from_txdata nv_env ftx_toy_fenv nv_spk nv_ssig [] = FOk (InScript nv_spk StBare) [EPush toy_sig] (Some nv_spk) /\
+  parse_script nv_spk = Some (enc toy_ke m_after) /\
+  keys_ok (with_sv nv_env (sv_of StBare)) toy_ke toy_kp /\
+  (exists t, type_of m_after = ROk t /\ c_base (t_corr t) = BB) /\
+  iwf (with_sv nv_env (sv_of StBare)) m_after /\ icover m_after /\
+  items_small (map conc [EPush toy_sig]) /\
+  interp (with_sv nv_env (sv_of StBare)) toy_ke toy_kp m_after [EPush toy_sig] = IAccept [CsPk [2; 0] toy_sig; CsAfter 10] /\
+  std_bounds StBare nv_ssig nv_spk (enc toy_ke m_after) (map conc [EPush toy_sig]) = true /\
+  (forall co, verify_spend nv_env co nv_spk nv_ssig [] = true).
+Proof. exact ftx_interp_nonvacuous. Qed.
 
 Example from_txdata_nonvacuous :
   from_txdata ftx_toy_env ftx_toy_fenv ftx_toy_spk [] [[5; 5]; [81]]
